@@ -154,6 +154,7 @@ static int rd_modify(MPT_INTERFACE(rawdata) *ptr, unsigned dim, const MPT_STRUCT
 static int rd_advance(MPT_INTERFACE(rawdata) *ptr)
 {
 	MPT_STRUCT(RawData) *rd = MPT_baseaddr(RawData, ptr, _rd);
+	const MPT_STRUCT(type_traits) *traits;
 	const MPT_STRUCT(buffer) *buf;
 	long act;
 	
@@ -168,8 +169,19 @@ static int rd_advance(MPT_INTERFACE(rawdata) *ptr)
 		return act;
 	}
 	/* add cycle placeholder */
-	if (!mpt_array_append(&rd->st, sizeof(MPT_STRUCT(rawdata_stage)), 0)) {
-		return 0;
+	if (!(traits = mpt_stage_traits())) {
+		return MPT_ERROR(BadOperation);
+	}
+	if (!buf) {
+		MPT_STRUCT(buffer) *st;
+		if (!(st = _mpt_buffer_alloc((act + 1) * traits->size, 0))) {
+			return MPT_ERROR(BadOperation);
+		}
+		st->_content_traits = traits;
+		rd->st._buf = st;
+	}
+	if (!mpt_array_slice(&rd->st, act * traits->size, traits->size)) {
+		return MPT_ERROR(BadOperation);
 	}
 	rd->act = act;
 	return act;
